@@ -430,16 +430,18 @@ fn logdomain(run: &Run, x: &[f64], tag: &str) {
 
 pub fn run(run: &Run) {
     run.rule("every length 0..=40 × {+,-,*,/} × every operand form (Vector/Matrix; owned/borrowed; scalar left/right; compound assignment; negation) × 29 unary maps + powi(-2..=5) + powf; values position-coded, plus every single-position injection of {±0, ±inf, NaN, min subnormal, MAX}; mismatched lengths/shapes must panic; reductions against double-double with the γ_n bound; non-trivial = length not a multiple of 8, or special value present, or mismatch");
-    let mut lens: Vec<usize> = (0..=40).collect();
+    let mut lens: Vec<usize> = (0..=72).collect();
+    lens.extend([127, 128, 129, 255, 256, 257, 1000, 1023, 1024, 1025, 4096, 4097, 10_000]);
     if run.thorough() {
-        lens.extend([63, 64, 65, 127, 128, 1000, 10_000]);
+        lens.extend(73..=300);
+        lens.extend([2047, 2048, 2049, 8191, 8192, 8193, 65_537]);
     }
-    run.bound("lengths", if run.thorough() { "0..=40 plus 63,64,65,127,128,1000,10000" } else { "0..=40" });
+    run.bound("lengths", if run.thorough() { "0..=300 plus powers of two ±1 up to 8193, 10000, 65537" } else { "0..=72 plus 127..129, 255..257, 1000, 1023..1025, 4096, 4097, 10000" });
     let maps = unary_maps();
     // 1. position-coded values, all lengths
     lens.par_iter().for_each(|&n| {
         let (x, y) = (xs(n), ys(n));
-        let with_m = n <= 128;
+        let with_m = n <= 129 || n == 1024;
         elementwise(run, &x, &y, 2.75, "coded", with_m);
         elementwise(run, &y, &x, -0.3, "coded-swapped", with_m);
         unary(run, &maps, &x, "coded", with_m);
